@@ -146,6 +146,66 @@ class Harness:
                 "history": [list(a) for a in hist]}
 
 
+def surrogate_case(cid: str, seed: int, budget: int, warm: int) -> dict:
+    """Run the real SurrogateOptimizer on a shrunken bundled system and record what it does to its objective."""
+    from moptipy.algorithms.so.vector.cmaes_lib import BiPopCMAES
+    from moptipy.api.execution import Execution
+    from moptipyapps.dynamic_control.controllers.ann import make_ann
+    from moptipyapps.dynamic_control.objective import FigureOfMeritLE
+    from moptipyapps.dynamic_control.surrogate_optimizer import SurrogateOptimizer
+    from moptipyapps.dynamic_control.system import System
+    from moptipyapps.dynamic_control.system_model import SystemModel
+    from moptipyapps.dynamic_control.systems.stuart_landau import STUART_LANDAU_4 as o
+    sysm = System(o.name, o.state_dims, o.control_dims, o.state_dim_mod, o.state_dims_in_j, o.gamma,
+                  o.test_starting_states, o.training_starting_states, 10, 10.0, 24, 8.0, o.plot_examples)
+    sysm.equations = o.equations      # type: ignore
+    inst = SystemModel(sysm, make_ann(2, 1, [2]), make_ann(3, 2, [2]))
+    obj = FigureOfMeritLE(inst, True)
+    base = obj.__class__
+    events: list = []
+
+    def rows_of(self):
+        sc = getattr(self, "_FigureOfMerit__collection_sc")
+        df = getattr(self, "_FigureOfMerit__collection_df")
+        return small(sum(len(a) for a in sc)), small(sum(len(a) for a in df))
+
+    def wrap(name, tag):
+        orig = getattr(base, name)
+
+        def f(self, *a, **k):
+            r = orig(self, *a, **k)
+            sc, df = rows_of(self)
+            events.append({"a": tag, "v": f64(float(r)) if tag == "eval" else f64(0.0), "sc": sc, "df": df})
+            return r
+        return f
+    obj.__class__ = type(base.__name__, (base,), {
+        "evaluate": wrap("evaluate", "eval"), "initialize": wrap("initialize", "init"),
+        "set_raw": wrap("set_raw", "raw"), "set_model": wrap("set_model", "model"),
+        "get_differentials": wrap("get_differentials", "diff")})
+    space = inst.controller.parameter_space()
+    algo = SurrogateOptimizer(inst, space, obj, warm, 24, None, 24, None, False,
+                              model_training_algorithm=lambda v: BiPopCMAES(v),
+                              controller_training_algorithm=lambda v: BiPopCMAES(v))
+    ex = Execution().set_solution_space(space).set_objective(obj).set_algorithm(algo) \
+        .set_max_fes(budget).set_rand_seed(seed)
+    with np.errstate(all="ignore"):
+        with ex.execute() as proc:
+            fes = int(proc.get_consumed_fes())
+            n_before = sum(1 for e in events if e["a"] == "eval")
+    # everything recorded until the process was closed; evaluations made while closing (log writing) are "extra"
+    raw_evals = 0
+    mode = "raw"
+    for e in events:
+        if e["a"] in ("init", "raw"):
+            mode = "raw"
+        elif e["a"] == "model":
+            mode = "model"
+        elif e["a"] == "eval" and mode == "raw":
+            raw_evals += 1
+    return {"id": cid, "steps": events, "fes": small(fes), "budget": budget, "extra": small(max(0, raw_evals - fes))
+            if raw_evals - fes in (0, 1) else 0, "n_events": len(events)}
+
+
 def find_bad2(inst) -> list:
     """A parameter vector whose first training case is fine and whose second is invalid: the controller is
     linear, so choose params with p . s1 finite/small but make the merit of case 2 overflow 1e100."""
@@ -236,6 +296,22 @@ def run(prop: str, tier: str, seed: int) -> int:
         for st in c["steps"]:
             if "raised" in st:
                 rep.violations.append(core.Verdict(c["id"], "action-raised:" + st.pop("raised"), c))
+    # ---- the surrogate optimizer's protocol around its objective
+    res = tlc.run("dyn/Surrogate", cfg_text="SPECIFICATION Spec\nCONSTANTS Budget = 6\n Warmup = 2\n InnerMax = 3\n"
+                  "INVARIANT RestoredAtEnd\nINVARIANT WithinBudget\nPROPERTY DataNeverShrinks\n"
+                  "PROPERTY GrowsOnlyOnRealSystem\nPROPERTY BudgetedOnRealSystem\nPROPERTY Terminates\n",
+                  workers=4, timeout=300)
+    rep.add_mc("Surrogate optimizer protocol machine", res)
+    sur = []
+    for k in range({"quick": 1, "thorough": 6}[tier]):
+        sur.append(surrogate_case(f"surrogate-{k}", rng.randrange(1, 1 << 40),
+                                  5 if tier == "quick" else rng.choice([7, 9, 11]), rng.choice([3, 4])))
+        rep.family("surrogate-optimizer-runs", 1, 1)
+        rep.nontrivial += 1
+        rep.transitions += sur[-1]["n_events"]
+    vs2 = core.validate("dyn/Trace_Sur", sur, shards=4)
+    core.classify(rep, vs2, {c["id"]: c for c in sur}, family="surrogate")
+    rep.traces += len(sur)
     vs = core.validate("dyn/Trace_FoM", cases, shards=14)
     core.classify(rep, vs, {c["id"]: c for c in cases}, family="recorded")
     rep.traces += len(cases)
